@@ -15,10 +15,12 @@
  */
 #pragma once
 
+#include <unifex/get_stop_token.hpp>
 #include <unifex/manual_lifetime.hpp>
 #include <unifex/receiver_concepts.hpp>
 #include <unifex/scheduler_concepts.hpp>
 #include <unifex/type_traits.hpp>
+#include <unifex/unstoppable_token.hpp>
 
 #include <unifex/detail/prologue.hpp>
 
@@ -26,8 +28,9 @@ namespace unifex {
 
 // When started with start(outer), will call outer.forward_set_value() on the
 // execution context obtained by scheduling on
-// get_scheduler(outer.get_receiver()). If schedule() fails or is cancelled,
-// will forward set_error()/set_done() to outer.get_receiver().
+// get_scheduler(outer.get_receiver()). The schedule operation sees an
+// unstoppable token; if it nevertheless fails or completes with done, will
+// forward set_error()/set_done() to outer.get_receiver().
 // outer.get_receiver() must return FinalReceiver&.
 // outer.forward_set_value must not throw.
 template <typename OpState, typename FinalReceiver>
@@ -67,6 +70,17 @@ private:
 
     void set_done() noexcept {
       unifex::set_done(std::move(outer_.get_receiver()));
+    }
+
+    // The outcome of the outer operation has already been decided when its
+    // completion is rescheduled (a waiter has been handed the lock, a payload
+    // has been transferred), so the reschedule must not be cancellable by the
+    // final receiver's stop token: a scheduler that completes with done when
+    // stop has been requested would otherwise turn a decided set_value into
+    // set_done.  Forward all other queries.
+    friend unstoppable_token
+    tag_invoke(tag_t<get_stop_token>, const receiver&) noexcept {
+      return {};
     }
 
     template(typename CPO)                       //
